@@ -1019,6 +1019,41 @@ def native_run(cls, meth, params, objs, vals):
     return out
 
 
+def replay_native_file(d):
+    """./check C18 --replay <file>: rebuild the real objects of the failing input and run the real operation again.
+    Returns the list of broken WF conjuncts / effects (empty = not reproduced)."""
+    import thermosteam  # noqa
+    from engine.vcg import heap_native as HN
+    rep = d.get('failing_input')
+    if not rep:
+        return None
+    objs = {int(k): v for k, v in rep['heap'].items()}
+    inputs = rep['inputs']
+    name = d['function']
+    cls, _, meth = name.partition('.')
+    real = HN.build(objs)
+    before = list(real.values())
+    wf_pre = HN.wf_native(HN.reachable(before))
+    exc = None
+    recv = real[inputs['self']]
+    extra = []
+    try:
+        if meth == 'extend':
+            recv.extend([real[i] for i in inputs['streams']])
+        elif meth.startswith('__setitem__(slice)'):
+            extra = list(recv._streams)
+            a_, b_ = inputs['slice']
+            recv[a_:b_] = [real[i] for i in inputs['streams']]
+        else:
+            params = next(prm for nm, c_, m_, prm in specs() if nm == name)
+            nat = native_run(cls, meth, params, objs, inputs)
+            return {'wf_pre': nat['wf_pre'], 'broken': (nat['wf_post'] or []) + (nat['effects_failed'] or []) + ([nat['exception']] if nat['exception'] not in (None, 'IndexError', 'RuntimeError') else [])}
+    except Exception as e:
+        exc = type(e).__name__
+    wf_post = HN.wf_native(HN.reachable(before + extra))
+    return {'wf_pre': wf_pre, 'broken': list(wf_post) + ([exc] if exc not in (None, 'RuntimeError') else [])}
+
+
 def _int_consts(terms):
     import z3
     seen = {}
